@@ -50,17 +50,26 @@ __all__ = ("TrioEventLoop",)
 class _TrioIdleCallbackInstrument(trio.abc.Instrument):
     """IDLE callbacks emulation helper."""
 
-    __slots__ = ("idle_callbacks",)
+    __slots__ = ("idle_callbacks", "on_exception")
 
-    def __init__(self, idle_callbacks: Mapping[Hashable, Callable[[], typing.Any]]):
+    def __init__(
+        self,
+        idle_callbacks: Mapping[Hashable, Callable[[], typing.Any]],
+        on_exception: Callable[[BaseException], typing.Any],
+    ):
         self.idle_callbacks = idle_callbacks
+        self.on_exception = on_exception
 
     def before_io_wait(self, timeout: float) -> None:
         if timeout > 0:
-            # callbacks may add or remove idle callbacks; one removed meanwhile is not called
-            for handle, idle_callback in tuple(self.idle_callbacks.items()):
-                if handle in self.idle_callbacks:
-                    idle_callback()
+            try:
+                # callbacks may add or remove idle callbacks; one removed meanwhile is not called
+                for handle, idle_callback in tuple(self.idle_callbacks.items()):
+                    if handle in self.idle_callbacks:
+                        idle_callback()
+            except BaseException as exc:  # noqa: BLE001
+                # Trio would log an exception escaping from an instrument and disable the instrument
+                self.on_exception(exc)
 
 
 class TrioEventLoop(EventLoop):
@@ -80,6 +89,7 @@ class TrioEventLoop(EventLoop):
         self._pending_tasks: list[tuple[Callable[_Spec, Awaitable], trio.CancelScope, _Spec.args]] = []
 
         self._nursery: trio.Nursery | None = None
+        self._idle_exc: BaseException | None = None
 
         self._sleep = trio.sleep
         self._wait_readable = trio.lowlevel.wait_readable
@@ -169,10 +179,11 @@ class TrioEventLoop(EventLoop):
         exception. If ExitMainLoop is raised, exits cleanly.
         """
 
-        emulate_idle_callbacks = _TrioIdleCallbackInstrument(self._idle_callbacks)
+        emulate_idle_callbacks = _TrioIdleCallbackInstrument(self._idle_callbacks, self._handle_idle_exception)
 
         try:
             trio.run(self._main_task, instruments=[emulate_idle_callbacks])
+            self._reraise_idle_exception()
         except BaseException as exc:
             self._handle_main_loop_exception(exc)
 
@@ -194,7 +205,7 @@ class TrioEventLoop(EventLoop):
                 nursery.cancel_scope.cancel()
         """
 
-        emulate_idle_callbacks = _TrioIdleCallbackInstrument(self._idle_callbacks)
+        emulate_idle_callbacks = _TrioIdleCallbackInstrument(self._idle_callbacks, self._handle_idle_exception)
 
         try:
             trio.lowlevel.add_instrument(emulate_idle_callbacks)
@@ -202,6 +213,7 @@ class TrioEventLoop(EventLoop):
                 await self._main_task()
             finally:
                 trio.lowlevel.remove_instrument(emulate_idle_callbacks)
+            self._reraise_idle_exception()
         except BaseException as exc:
             self._handle_main_loop_exception(exc)
 
@@ -240,6 +252,20 @@ class TrioEventLoop(EventLoop):
             await self._sleep(seconds)
             callback()
 
+    def _handle_idle_exception(self, exc: BaseException) -> None:
+        """Remembers the exception raised by an idle callback and stops the main task,
+        so that it leaves the loop like an exception raised by any other callback.
+        """
+        if self._idle_exc is None:
+            self._idle_exc = exc
+        if self._nursery is not None:
+            self._nursery.cancel_scope.cancel()
+
+    def _reraise_idle_exception(self) -> None:
+        exc, self._idle_exc = self._idle_exc, None
+        if exc is not None:
+            raise exc
+
     def _handle_main_loop_exception(self, exc: BaseException) -> None:
         """Handles exceptions raised from the main loop, catching ExitMainLoop
         instead of letting it propagate through.
@@ -248,6 +274,7 @@ class TrioEventLoop(EventLoop):
         we cannot simply use a try..catch clause, we need a helper function like this.
         """
         self._idle_callbacks.clear()
+        self._idle_exc = None
         if isinstance(exc, BaseExceptionGroup) and len(exc.exceptions) == 1:
             exc = exc.exceptions[0]
 
